@@ -192,12 +192,17 @@ def run_property(prop, tier='quick', seed=0, budget=None, only=None, jobs=None, 
             known_stale.append(e)
             say('NOTE stale known finding (witness no longer fails; region is checked in full): %s' % e['id'])
     for o in obs:
-        regs = []
+        regs, tags = [], []
         for e in known_live:
             if e['fn'] == o['fn'] and e.get('module', 'vf.props.' + prop) == o['module']:
-                regs.append(e['region'])
+                if e.get('region'):
+                    regs.append(e['region'])
+                if e.get('tag'):
+                    tags.append(e['tag'])
         if regs:
             o['regions'] = regs
+        if tags:
+            o['known_tags'] = tags
 
     # ---- explore ------------------------------------------------------------------
     results = {}
@@ -239,7 +244,7 @@ def run_property(prop, tier='quick', seed=0, budget=None, only=None, jobs=None, 
                 j = Job('witness', replay_spec(ob, r['example']), cap=60)
                 j.ob, j.r = ob, r
                 wit_jobs.append(j)
-        elif st == 'VACUOUS' and ob.get('regions'):
+        elif st == 'VACUOUS' and (ob.get('regions') or ob.get('known_tags')):
             # the whole obligation lies inside a listed, still-reproducing known-finding region
             known_covered.append(oid)
         elif st in ('ERROR', 'VACUOUS'):
@@ -301,7 +306,7 @@ def run_property(prop, tier='quick', seed=0, budget=None, only=None, jobs=None, 
         r, ob = results[oid], by_id[oid]
         samples.append({'obligation': oid, 'function': ob['module'] + '.' + ob['fn'], 'params': ob.get('params'),
                         'verdict': r.get('status'), 'paths': r.get('paths'), 'solver_queries': r.get('solver_queries'),
-                        'example_model': r.get('example') or r.get('cex'), 'assumed_away': ob.get('regions')})
+                        'example_model': r.get('example') or r.get('cex'), 'assumed_away': (ob.get('regions') or []) + (ob.get('known_tags') or [])})
     evidence = {
         'property_id': prop, 'tier': tier, 'seed': int(seed), 'level': 'other',
         'coverage': {
